@@ -145,3 +145,62 @@ fn c16_action_print_parse() {
         Err(_) => assert!(false, "C16: printed form of an action must parse"),
     }
 }
+
+// @obl props=C16 tier=thorough kind=harness-contract mem=24 est=1500 timeout=5400
+// @bounded all valid UTF-8 strings of <= 7 bytes (every string of <= 3 characters whose characters need at most 7 bytes in total)
+// @fns Action::from_str
+// @clause as c16_action_from_str, for longer strings
+#[kani::proof]
+#[kani::unwind(10)]
+#[kani::stub(::anyhow::private::format_err, cut_err)]
+#[kani::stub(<crate::square::Square as std::str::FromStr>::from_str, sq_spec_parse)]
+#[kani::stub(<crate::direction::Direction as std::str::FromStr>::from_str, dir_spec_parse)]
+#[kani::stub(<crate::piece::Piece as std::str::FromStr>::from_str, piece_spec_parse)]
+fn c16_action_from_str_7() {
+    let bytes: [u8; 7] = kani::any();
+    let len: usize = kani::any();
+    kani::assume(len <= 7);
+    if let Ok(s) = std::str::from_utf8(&bytes[..len]) {
+        kani::cover!(len == 7);
+        if let Ok(a) = s.parse::<Action>() {
+            match a {
+                Action::Pass => assert!(len == 1 && bytes[0] == b'p', "C16: Pass parses only from \"p\""),
+                Action::Place(p) => assert!(len == 1 && (bytes[0] == piece_letter(p) || bytes[0] == piece_letter(p).to_ascii_uppercase()), "C16: a placement parses only from its piece letter"),
+                Action::Move(sq, d) => {
+                    let i = sq.index() as u8;
+                    assert!(i < 64 && len == 3 && bytes[0] == file_letter(i) && bytes[1] == rank_digit(i) && bytes[2] == dir_letter(d), "C16: a step parses only from its printed form");
+                }
+            }
+        }
+    }
+}
+// @obl props=C01,C16 tier=thorough kind=harness-contract mem=12 est=600 timeout=3600
+// @bounded words with at most 5 set bits
+// @fns map_bit_board_to_squares
+// @clause as seam_small, for up to 5 set bits
+#[kani::proof]
+#[kani::unwind(7)]
+fn seam_small_5() {
+    let b = [any_sq(), any_sq(), any_sq(), any_sq(), any_sq()];
+    let w = (1u64 << b[0]) | (1u64 << b[1]) | (1u64 << b[2]) | (1u64 << b[3]) | (1u64 << b[4]);
+    let i = any_sq();
+    kani::cover!(w.count_ones() == 5);
+    let v = map_bit_board_to_squares(w);
+    assert!(v.len() as u32 == w.count_ones(), "C16: one square per set bit");
+    let mut found = false;
+    let mut k = 0;
+    while k < 5 {
+        if k < v.len() {
+            let s = v[k].index() as u8;
+            assert!(s < 64 && bit(w, s), "C16: every listed square is a set bit");
+            if k > 0 {
+                assert!((v[k - 1].index() as u8) < s, "C16: squares are listed in strictly ascending order");
+            }
+            if s == i {
+                found = true;
+            }
+        }
+        k += 1;
+    }
+    assert!(found == bit(w, i), "C16: every set bit is listed");
+}
